@@ -1,4 +1,149 @@
+(* C11/Properties.v — property theorems only: statement, `exact`, Print Assumptions.
+   The configuration records gen_cfg_rs / gen_cfg_r are assembled from the constants the
+   translator regenerates from klongpy/parser.py, sys_fn.py and writer.py at every run; each
+   theorem is closed with (eq_refl : gen_cfg_* = std_cfg), which type-checks only while every
+   one of those literal facts still has the value the proofs were made for. *)
 From Coq Require Import ZArith List Bool.
-From C11 Require Import Generated Model ProofsLex Proofs.
-Theorem C11_stub : True. Proof. exact stub. Qed.
-Print Assumptions C11_stub.
+From C11 Require Import Generated Model ProofsLex Proofs ProofsNorm ProofsIdem.
+Import ListNotations.
+Open Scope Z_scope.
+
+(* T11.rt  Reading back what .w wrote gives the value, as kg_asarray normalises it — for EVERY
+   writable value: integers, finite reals, characters and strings over any code points, valid
+   symbols, lists of these to any depth, top-level dictionaries of them. *)
+Theorem C11_read_back_rs : forall E, env_ok E -> forall v, writable E v = true ->
+  rs E gen_cfg_rs (write E gen_cfg_rs v) = Ok (asarray E v).
+Proof.
+  exact (fun E HE v Hw =>
+    eq_ind_r (fun c => rs E c (write E c v) = Ok (asarray E v)) (rs_written E HE v Hw)
+             (eq_refl : gen_cfg_rs = std_cfg)).
+Qed.
+Print Assumptions C11_read_back_rs.
+
+(* the same through the .r call site *)
+Theorem C11_read_back_r : forall E, env_ok E -> forall v, writable E v = true ->
+  rs E gen_cfg_r (write E gen_cfg_r v) = Ok (asarray E v).
+Proof.
+  exact (fun E HE v Hw =>
+    eq_ind_r (fun c => rs E c (write E c v) = Ok (asarray E v)) (rs_written E HE v Hw)
+             (eq_refl : gen_cfg_r = std_cfg)).
+Qed.
+Print Assumptions C11_read_back_r.
+
+(* what is read back matches what was written (integers that NumPy turned into reals match them) *)
+Theorem C11_read_back_matches : forall E v, writable E v = true -> vmatch E v (asarray E v) = true.
+Proof. exact (fun E v Hw => vmatch_asarray E v (wr_pure E v false Hw)). Qed.
+Print Assumptions C11_read_back_matches.
+
+(* The property as stated. *)
+Definition C11_full_statement (E : env) (c : cfg) : Prop :=
+  forall v, writable E v = true ->
+  exists v', rs E c (write E c v) = Ok v' /\ vmatch E v v' = true /\ write E c v' = write E c v.
+
+(* It holds for every value that is in kg_asarray's normal form — all values klongpy itself
+   produces by reading: the value comes back EXACTLY and therefore writes identically. *)
+Theorem C11_roundtrip_normal : forall E, env_ok E -> forall v, writable E v = true -> asarray E v = v ->
+  rs E gen_cfg_rs (write E gen_cfg_rs v) = Ok v /\ vmatch E v v = true.
+Proof.
+  exact (fun E HE v Hw Hn =>
+    conj (eq_ind (asarray E v) (fun x => rs E gen_cfg_rs (write E gen_cfg_rs v) = Ok x) (C11_read_back_rs E HE v Hw) v Hn)
+         (vmatch_refl E v (wr_pure E v false Hw))).
+Qed.
+Print Assumptions C11_roundtrip_normal.
+
+(* kg_asarray's normalisation is idempotent: whatever .rs returns is in normal form ... *)
+Theorem C11_normalisation_idempotent : forall E v, asarray E (asarray E v) = asarray E v.
+Proof. exact asarray_idem. Qed.
+Print Assumptions C11_normalisation_idempotent.
+
+(* ... so the value read back (if itself writable, i.e. the integers NumPy converted gave finite reals)
+   round-trips exactly from then on: it is read back as itself and therefore writes identically *)
+Theorem C11_second_roundtrip_exact : forall E, env_ok E -> forall v,
+  writable E v = true -> writable E (asarray E v) = true ->
+  rs E gen_cfg_rs (write E gen_cfg_rs (asarray E v)) = Ok (asarray E v).
+Proof.
+  exact (fun E HE v _ Hw' => proj1 (C11_roundtrip_normal E HE (asarray E v) Hw' (asarray_idem E v))).
+Qed.
+Print Assumptions C11_second_roundtrip_exact.
+
+(* a tiny environment agreeing with Python on the three numbers of the witness below *)
+Definition env_witness : env := {|
+  e_space := fun _ => false; e_alpha := fun _ => false; e_digit := fun _ => false; e_numeric := fun _ => false;
+  fmt_real := fun r => if r =? 4607182418800017408 then [49; 46; 48] else if r =? 4612811918334230528 then [50; 46; 53] else [];
+  parse_real := fun t => if zs_eqb t [49; 46; 48] then Some 4607182418800017408 else if zs_eqb t [50; 46; 53] then Some 4612811918334230528 else None;
+  real_of_int := fun z => if z =? 1 then 4607182418800017408 else 0 |}.
+
+(* Known finding C11-mixed-int-real-list: outside the normal form the full statement fails.
+   The list [1 2.5] with an integer 1 (klongpy can hold it as an object array) is written
+   "[1 2.5]", read back as [1.0 2.5], which writes "[1.0 2.5]". *)
+Theorem C11_mixed_refuted :
+  exists v v', writable env_witness v = true /\
+    rs env_witness gen_cfg_rs (write env_witness gen_cfg_rs v) = Ok v' /\
+    vmatch env_witness v v' = true /\
+    write env_witness gen_cfg_rs v' <> write env_witness gen_cfg_rs v.
+Proof.
+  exists (VList [VInt 1; VReal 4612811918334230528]), (VList [VReal 4607182418800017408; VReal 4612811918334230528]).
+  split; [vm_compute; reflexivity |]. split; [vm_compute; reflexivity |]. split; [vm_compute; reflexivity |].
+  vm_compute. discriminate.
+Qed.
+
+(* The three defects repaired by fix: commits, as witnesses against the OLD flag values
+   (the theorems above are about the regenerated flags). *)
+Definition with_flags (reread top_neg build : bool) : cfg := {|
+  c_delims := c_delims std_cfg; c_reread := reread; c_list_neg := true; c_top_neg := top_neg; c_build_dict := build;
+  c_sym_pre := c_sym_pre std_cfg; c_chr_pre := c_chr_pre std_cfg;
+  c_lopen := c_lopen std_cfg; c_lsep := c_lsep std_cfg; c_lclose := c_lclose std_cfg;
+  c_dopen := c_dopen std_cfg; c_dsep := c_dsep std_cfg; c_dclose := c_dclose std_cfg;
+  c_sopen := c_sopen std_cfg; c_sclose := c_sclose std_cfg; c_esc_when := c_esc_when std_cfg; c_esc_with := c_esc_with std_cfg |}.
+
+(* R5: without evaluating the constructor, a written dictionary reads back as a call object *)
+Theorem C11_dict_refuted_without_build : forall E,
+  let c := with_flags false true false in
+  rs E c (write E c (VDict [(VInt 1, VInt 2)])) = Ok (VOpaque 2).
+Proof. intro E. vm_compute. reflexivity. Qed.
+
+(* with the re-entry on "[" in read_list, ["[" 1] reads back as [[1]] *)
+Theorem C11_bracket_refuted_with_reread : forall E,
+  let c := with_flags true true true in
+  rs E c (write E c (VList [VStr [91]; VInt 1])) = Ok (VList [VList [VInt 1]]).
+Proof. intro E. vm_compute. reflexivity. Qed.
+
+(* without read_neg at the call site (.r before the fix), -5 reads back as the operator - *)
+Theorem C11_negative_refuted_without_read_neg : forall E,
+  let c := with_flags false false true in
+  rs E c (write E c (VInt (-5))) = Ok (VOpaque 1).
+Proof. intro E. vm_compute. reflexivity. Qed.
+
+(* T11.form  Form inverts Format on atoms: x:$$x is x *)
+Theorem C11_form_inverts_format : forall E, env_ok E -> forall x, atom x = true -> wr E false x = true ->
+  exists t, format E x = Some t /\ form E x t = Some x.
+Proof. exact form_format. Qed.
+Print Assumptions C11_form_inverts_format.
+
+(* Integers need no assumption: decimal text of any Z parses back. *)
+Theorem C11_integer_text : forall z, parse_int (write_int z) = Some z.
+Proof. exact parse_int_write_int. Qed.
+Print Assumptions C11_integer_text.
+
+(* Non-vacuity: the hypotheses are met by concrete data.  A nested value with quotes,
+   brackets, a comment marker, a negative number and an empty list is writable, in normal form,
+   and the (assumption-free) computation of the round trip agrees with the theorem. *)
+Example C11_example :
+  let v := VList [VInt (-2); VStr [34; 91; 58; 34; 10]; VChar 91; VSym [97; 46; 98]; VList []; VList [VList [VInt 1; VInt 2]; VList [VInt 3; VInt 4]]] in
+  writable env_witness v = true /\ asarray env_witness v = v /\
+  rs env_witness gen_cfg_rs (write env_witness gen_cfg_rs v) = Ok v /\
+  rs env_witness gen_cfg_rs (write env_witness gen_cfg_rs (VDict [(VStr [107], VList [VInt 1]); (VInt (-3), VChar 125)]))
+    = Ok (VDict [(VStr [107], VList [VInt 1]); (VInt (-3), VChar 125)]).
+Proof. vm_compute. repeat split; reflexivity. Qed.
+
+(* env_ok is satisfiable on the reals of the witness environment (the harness exercises it on
+   the running Python for many floats per run) *)
+Example C11_env_example :
+  parse_real env_witness (fmt_real env_witness 4612811918334230528) = Some 4612811918334230528 /\
+  real_shape (fmt_real env_witness 4612811918334230528) = true /\ finite 4612811918334230528 = true.
+Proof. vm_compute. repeat split; reflexivity. Qed.
+
+(* ... and env_ok as a whole is satisfiable (by a toy conversion: the bit pattern in decimal followed by ".0") *)
+Example C11_env_ok_inhabited : exists E, env_ok E.
+Proof. exact (ex_intro _ env_toy env_toy_ok). Qed.
+
